@@ -201,6 +201,70 @@ def enum_level0(tier):
         yield {"planetary": planetary, "before": [[1, 0, 1], [3, 2, 5]]}
 
 
+def exec_sampler_grids(case):
+    """what 'sampling a layer' refers to: the coordinate grids handed to the sampler while a layer of depth d is sampled are,
+    tile by tile, the centres of the tiles eight levels deeper - whatever the output format (bottom-up FITS included), the
+    entry point (plain, filtered with an accept-all filter, Builder.toast_base) and the coordinate system"""
+    from toasty import toast
+    from toasty.pyramid import PyramidIO
+    from toasty.builder import Builder
+    from ..core import fresh_dir
+
+    planetary, depth, fmt, route = case["planetary"], case["depth"], case["format"], case["route"]
+    sysname = "planetary" if planetary else "astronomical"
+    what = f"sampling a depth-{depth} {fmt} layer ({sysname}) through {route}"
+    got = []
+
+    def sampler(lon, lat):
+        got.append((np.array(lon, dtype=float), np.array(lat, dtype=float)))
+        if fmt == "png":
+            return np.full(np.shape(lon) + (3,), 7, dtype=np.uint8)
+        return np.ones(np.shape(lon), dtype=np.float32)
+
+    with fresh_dir("c05s-") as d:
+        pio = PyramidIO(d, default_format=fmt)
+        with toasty_call("coords", what):
+            if route == "sample_layer":
+                toast.sample_layer(pio, sampler, depth, coordsys=cs_of(planetary), parallel=1)
+            elif route == "sample_layer_filtered":
+                toast.sample_layer_filtered(pio, lambda t: True, sampler, depth, coordsys=cs_of(planetary), parallel=1)
+            else:
+                Builder(pio).toast_base(sampler, depth, is_planet=planetary, parallel=1)
+    n = 4**depth
+    if len(got) != n:
+        raise Violation("level0", f"{what}: the sampler was called {len(got)} times for {n} tiles")
+    refs = {(x, y): rt.pixel_centres(depth, x, y, planetary) for x in range(2**depth) for y in range(2**depth)}
+    used = {}
+    t = 1e-12
+    for k, (lon, lat) in enumerate(got):
+        if lon.shape != (256, 256) or lat.shape != (256, 256):
+            raise Violation("shape", f"{what}: call {k} got grids of shapes {lon.shape}, {lat.shape}")
+        V = rt.lonlat_to_vec(lon, lat)
+        best, bestd = None, None
+        for xy, ref in refs.items():
+            dd = rt.ang_dist(ref, V)
+            m = dd.max()
+            if bestd is None or m < bestd:
+                best, bestd, bdd = xy, m, dd
+        if bestd > t:
+            i, j = np.unravel_index(bdd.argmax(), bdd.shape)
+            raise Violation("centres", f"{what}: the grid of sampler call {k} is no tile's pixel grid; closest is tile ({depth}, {best[0]}, {best[1]}), where pixel (row {i}, col {j}) is {bestd:.3g} rad from the centre of tile ({depth + 8}, {256 * best[0] + j}, {256 * best[1] + i}); {(bdd > t).sum()} of 65536 pixels differ")
+        if best in used:
+            raise Violation("centres", f"{what}: sampler calls {used[best]} and {k} both received the grid of tile ({depth}, {best[0]}, {best[1]})")
+        used[best] = k
+    return Outcome(classes=[f"n{depth}", sysname, fmt, route], nontrivial=True, count=n)
+
+
+def enum_sampler_grids(tier):
+    for depth in (0, 1, 2):
+        for fmt in ("npy", "fits", "png"):
+            for planetary in (False, True):
+                for route in ("sample_layer", "sample_layer_filtered", "toast_base"):
+                    if depth == 2 and tier == "quick" and route == "toast_base" and fmt == "png":
+                        continue
+                    yield {"depth": depth, "format": fmt, "planetary": planetary, "route": route}
+
+
 PARTS = [
     Part("all_tiles_small_depth", exec_tile, enumerate=enum_tiles, shards={"quick": 16, "thorough": 16}, budget_s={"quick": 80, "thorough": 1500},
          describe="every tile with 1<=n<=3 (quick) / <=5 (thorough), all 65536 pixels, both systems"),
@@ -208,5 +272,7 @@ PARTS = [
          budget_s={"quick": 60, "thorough": 1200}, describe="generated tiles to depth 16 (incl. the square's corner tile), all pixels, both systems"),
     Part("level0_grid", exec_level0, enumerate=enum_level0, shards={"quick": 2, "thorough": 2}, budget_s={"quick": 60, "thorough": 60},
          describe="the level-0 tile's grid as handed to a sampler of a depth-0 layer, both systems"),
+    Part("sampler_grids", exec_sampler_grids, enumerate=enum_sampler_grids, shards={"quick": 16, "thorough": 16}, budget_s={"quick": 80, "thorough": 300},
+         describe="the grids handed to the sampler while a layer of depth 0-2 is sampled (npy / fits / png output; plain, filtered, Builder.toast_base; both systems) are the tiles' own pixel grids, each tile once"),
 ]
 PARTS[2].exhaustive_tiers = {"quick", "thorough"}
